@@ -222,5 +222,85 @@ theorem domM_upd_none {s : Store β} {a : Nat} {w : β} (h : s.get? a = some w) 
     refine ⟨?_, nodup_domM _⟩
     rw [mem_domM, get?_upd_same h]; simp
 
+
+theorem get?_upd_none (s : Store β) (a x : Nat) : (s.upd a none).get? x = if x = a then none else s.get? x := by
+  rw [get?_upd]
+  by_cases hx : x = a
+  · subst hx
+    by_cases hl : x < s.cells.length
+    · simp [hl]
+    · simp [hl, get?_ge (Nat.le_of_not_lt hl)]
+  · simp [hx]
+
+/-! ### freeing a list of addresses -/
+def freeMany (s : Store β) (L : List Nat) : Store β := L.foldl (fun s p => s.upd p none) s
+
+theorem get?_freeMany (s : Store β) (L : List Nat) (x : Nat) :
+    (s.freeMany L).get? x = if x ∈ L then none else s.get? x := by
+  induction L generalizing s with
+  | nil => simp [freeMany]
+  | cons p L ih =>
+    show ((s.upd p none).freeMany L).get? x = _
+    rw [ih, get?_upd_none]
+    by_cases h1 : x ∈ L <;> by_cases h2 : x = p <;> simp [h1, h2]
+
+theorem length_freeMany (s : Store β) (L : List Nat) : (s.freeMany L).cells.length = s.cells.length := by
+  induction L generalizing s with
+  | nil => rfl
+  | cons p L ih => show ((s.upd p none).freeMany L).cells.length = _; rw [ih, length_upd]
+
+theorem domM_freeMany {s : Store β} {L : List Nat} (hn : L.Nodup) (hl : ∀ p ∈ L, ∃ v, s.get? p = some v) :
+    s.domM = (L : Multiset Nat) + (s.freeMany L).domM := by
+  induction L generalizing s with
+  | nil => simp [freeMany]
+  | cons p L ih =>
+    obtain ⟨v, hv⟩ := hl p List.mem_cons_self
+    rw [List.nodup_cons] at hn
+    have hl' : ∀ q ∈ L, ∃ v, (s.upd p none).get? q = some v := by
+      intro q hq
+      obtain ⟨w, hw⟩ := hl q (List.mem_cons_of_mem _ hq)
+      refine ⟨w, ?_⟩
+      rw [get?_upd_ne _ _ (fun h : q = p => hn.1 (by rw [← h]; exact hq))]; exact hw
+    show s.domM = _ + ((s.upd p none).freeMany L).domM
+    rw [domM_upd_none hv, ih hn.2 hl', ← Multiset.cons_coe, Multiset.cons_add]
+
+/-- the `free` loop succeeds on distinct live addresses -/
+theorem freeMany_ok {s : Store β} {L : List Nat} (hn : L.Nodup) (hl : ∀ p ∈ L, ∃ v, s.get? p = some v) :
+    ∀ p ∈ L, ∀ L1 L2, L = L1 ++ p :: L2 → ∃ v, (s.freeMany L1).get? p = some v := by
+  intro p _ L1 L2 hL
+  obtain ⟨v, hv⟩ := hl p (by rw [hL]; simp)
+  refine ⟨v, ?_⟩
+  rw [get?_freeMany]
+  have : p ∉ L1 := by
+    rw [hL] at hn
+    have := (List.nodup_append.mp hn).2.2
+    intro hp
+    exact this p hp p List.mem_cons_self rfl
+  simp [this, hv]
+
+
+theorem upd_upd (s : Store β) (a : Nat) (x y : Option β) : (s.upd a x).upd a y = s.upd a y := by
+  unfold upd; simp [List.set_set]
+
+
+/-! ### a block that is allocated and released again -/
+theorem get?_alloc_free (s : Store β) (v : β) (x : Nat) : ((s.alloc v).1.upd s.cells.length none).get? x = s.get? x := by
+  rw [get?_upd_none, get?_alloc]
+  by_cases hx : x = s.cells.length
+  · subst hx; simp [get?_ge (Nat.le_refl _)]
+  · simp [hx]
+
+theorem valsM_alloc_free (s : Store β) (v : β) : ((s.alloc v).1.upd s.cells.length none).valsM = s.valsM := by
+  obtain ⟨r, h1, _, h3⟩ := valsM_upd (get?_alloc_new s v)
+  rw [valsM_alloc] at h1
+  rw [h3]
+  exact ((Multiset.cons_inj_right _).mp h1).symm
+
+theorem length_alloc_free (s : Store β) (v : β) : ((s.alloc v).1.upd s.cells.length none).cells.length = s.cells.length + 1 := by
+  rw [length_upd, length_alloc]
+
+theorem alloc_free_ok (s : Store β) (v : β) : (s.alloc v).1.free s.cells.length = .ok ((s.alloc v).1.upd s.cells.length none) :=
+  free_ok' (get?_alloc_new s v)
+
 end Store
 end XrlCrystals
